@@ -102,7 +102,8 @@ def tile_segments(rng, lo, hi, sizes):
     nd = len(lo)
     cuts = []
     for d in range(nd):
-        segs = _segments(rng, hi[d] - lo[d] + 1, sizes)
+        szd = sizes[d] if isinstance(sizes[0], (list, tuple)) else sizes
+        segs = _segments(rng, hi[d] - lo[d] + 1, szd)
         assert segs is not None, (lo, hi, sizes)
         edges = [lo[d]]
         for s in segs:
@@ -147,7 +148,8 @@ def gen_model(seed, ndims=3, nlevels=None, nfields=None, base=None, bf=4, maxsz=
         m.names = [f"f{i}" for i in range(m.nfields)]
     if sizes:
         if base is None:
-            base = [sum(rng.choice(sizes) for _ in range(rng.randint(1, 2))) for _ in range(ndims)]
+            base = [sum(rng.choice(sizes[d] if isinstance(sizes[0], (list, tuple)) else sizes)
+                        for _ in range(rng.randint(1, 2))) for d in range(ndims)]
     elif base is None:
         base = [bf * rng.randint(*base_blocks) for _ in range(ndims)]
     m.base = list(base)
